@@ -66,9 +66,15 @@ pub fn corpus(sink: &mut Sink) {
     }
 }
 
-pub fn run(seed: u64, count: usize, sink: &mut Sink) {
+pub fn run(seed: u64, count: usize, tier: &str, sink: &mut Sink) {
     let mut rng = Rng::new(seed ^ 0xE171);
     corpus(sink);
+    if tier == "thorough" {
+        let alpha = ['&', '<', '>', '\'', '"', ']', '\t', '\n', '\r', ' ', 'a', '\u{a0}', ';', '#'];
+        exhaustive(&alpha, 4, SER_OPS, sink);
+        exhaustive(&[']', '>', 'a'], 8, &["ser_cdata", "ser_text1", "ser_text0"], sink);
+        exhaustive(&['&', '#', 'x', ';', '1', 'a', '+', '\r', '\n'], 5, &["parse_text", "parse_attr"], sink);
+    }
     for _ in 0..count {
         match rng.below(10) {
             0..=2 => {
